@@ -301,23 +301,32 @@ func init() {
 	// ---- iocloser ----
 	eng.Register(&eng.Scenario{
 		Name: "iocloser-history", Props: []string{"C20"}, NoRace: true,
-		Doc: "iocloser.ReadCloser / WriteCloser: every sequence of 10 (14 thorough) calls over {Read|Write, Close}, close function returning nil or an error: data passes through until Close, the close function runs exactly once, afterwards EOF without touching the wrapped stream",
+		Doc: "iocloser.ReadCloser / WriteCloser: every sequence of 10 (14 thorough) calls over {Read|Write, Close}, close function returning nil, returning an error, or nil; wrapped stream transferring fully or short with an error: data and errors pass through until Close, the close function runs exactly once, afterwards EOF without touching the wrapped stream",
 		Direct: func(rep *eng.DirectReport, shard, nshards int, thorough bool) {
 			depth := 10
 			if thorough {
 				depth = 14
 			}
 			enumSeq(depth, 2, shard, nshards, func(seq []int) {
-				for variant := 0; variant < 4; variant++ {
+				for variant := 0; variant < 12; variant++ {
 					rep.Cases++
-					writer, closeErr := variant%2 == 1, variant >= 2
+					// close function: returns nil | returns an error | is nil; wrapped stream: full transfer | short transfer with an error
+					writer, closeErr, nilClose, faulty := variant%2 == 1, (variant/2)%3 == 1, (variant/2)%3 == 2, variant >= 6
 					calls, closes := 0, 0
-					st := &scriptRW{resp: func(call int, p []byte) (int, error) { calls++; return len(p), nil }}
+					wantN, wantErr := 3, error(nil)
+					if faulty {
+						wantN, wantErr = 2, errStream
+					}
+					st := &scriptRW{resp: func(call int, p []byte) (int, error) { calls++; return wantN, wantErr }}
 					var cerr error
 					if closeErr {
 						cerr = errStream
 					}
 					closeFn := func() error { closes++; return cerr }
+					wantCloses := 1
+					if nilClose {
+						closeFn, wantCloses = nil, 0
+					}
 					var rc io.Closer
 					var op func([]byte) (int, error)
 					if writer {
@@ -328,7 +337,7 @@ func init() {
 						rc, op = r, r.Read
 					}
 					closed := false
-					hist := fmt.Sprintf("writer=%v closeErr=%v: ", writer, closeErr)
+					hist := fmt.Sprintf("writer=%v closeErr=%v nilCloseFn=%v faultyStream=%v: ", writer, closeErr, nilClose, faulty)
 					for _, l := range seq {
 						if l == 0 {
 							hist += "IO "
@@ -339,7 +348,7 @@ func init() {
 									rep.Fail("C20.iocloser-after-close", fmt.Sprintf("after Close: returned (%d,%v), wrapped stream called %d more times", n, err, calls-before), hist)
 									return
 								}
-							} else if n != 3 || err != nil || calls != before+1 {
+							} else if n != wantN || err != wantErr || calls != before+1 {
 								rep.Fail("C20.iocloser-passthrough", fmt.Sprintf("before Close: returned (%d,%v), wrapped stream called %d times", n, err, calls-before), hist)
 								return
 							}
@@ -355,7 +364,7 @@ func init() {
 								return
 							}
 							closed = true
-							if closes != 1 {
+							if closes != wantCloses {
 								rep.Fail("C20.iocloser-close-count", fmt.Sprintf("close function ran %d times", closes), hist)
 								return
 							}
